@@ -1,4 +1,5 @@
 import TypifyModel.Proofs.C03
+import TypifyModel.Proofs.C03Valid
 import TypifyModel.Proofs.C03Contain
 open TypifyModel.C03 TypifyModel.RoundTrip
 #print axioms struct_rt
@@ -12,3 +13,4 @@ open TypifyModel.C03 TypifyModel.RoundTrip
 #print axioms roundtrip_contains
 #print axioms struct_roundtrip_contains
 #print axioms variant_roundtrip_contains
+#print axioms TypifyModel.C03V.rt_valid_enforced
